@@ -21,25 +21,30 @@ argument tuple crosses exactly one edge of `locs[r]` when row `r` is present and
 
 * `C09_locSpecOk`: `locSpecOk p cmp = true → LocSpec p cmp` (the check the harness runs discharges the hypothesis).
 * `C09_main` (C09a): for a conjunctive provenance with binary candidates and at least two units, if
-  `ShapleyOracle.__init__` succeeded (`build … = .ok b`), the compiled diagram mentions every unit exactly once
-  and `LocSpec` holds, then `query(unit, bw, bwo)` succeeds for every unit and every pair of boundary rows
-  (or `None`) and returns one count per value of the domain: entry `k` is exactly
+  `ShapleyOracle.__init__` succeeded (`build … = .ok b`) and `LocSpec` holds for the compiled diagram, then that
+  diagram is `Reach`able, mentions every unit exactly once, and `query(unit, bw, bwo)` succeeds for every unit and
+  every pair of boundary rows (or `None`) and returns one count per value of the domain: entry `k` is exactly
   `countSpec … (t, w, wo of D.vecs[k])`, and the last entry is `2^(n-1)` minus the others (the assignments whose
-  tallies overflow).  Nothing is assumed about `labels`, `dist`, `N`, `K`, `c`.
+  tallies overflow).  Nothing is assumed about `labels`, `dist`, `N`, `K`, `c` (the hypotheses `labels[r] < c`,
+  `N ≥ nUnits - 1`, `0 < c` of the plan turned out not to be needed).
 * `C09_total` (C09b): the entries returned by `query` add up to `2^(nUnits - 1)`.
 * `C09_chain` (C09c): when every row has exactly one unit, `compile` returns the chain diagram over
   `range nUnits`, which is `Reach`able, and `LocSpec` holds.  `C09_mapfork`: hence for map/fork provenance
   `__init__` succeeds and the conclusions of `C09_main`/`C09_total` hold unconditionally.
-* `C09_compile_partial` (part of C09d): whatever `compile` returns (general conjunctive case: `stack`s of chains over
-  the leaf units under header trees over the factor units, `concatenate`d) is a `Reach`able diagram (hence
-  well-formed and rectangular) with two candidates whose edge values are all zero, and `__init__` then succeeds
-  provided the diagram's units are the units of `p`.  NOT proved (kept as hypotheses of `C09_main`, both decidable
-  and checked by the harness on every generated case): the units of the compiled diagram are a permutation of
-  `range nUnits` (needs: `components` partitions the units) and `LocSpec` (needs: the greedy leaf set is
-  independent, `getUpdateLocation` returns the edges of the last mentioned unit reached by the consistent paths).
+* `C09_compile_partial` (part of C09d): whatever `compile` returns for a conjunctive provenance (general case:
+  `stack`s of chains over the leaf units under header trees over the factor units, `concatenate`d) is a `Reach`able
+  diagram (hence well-formed and rectangular) with two candidates whose edge values are all zero and whose units
+  are a permutation of `range nUnits` (the connected components computed by `compile` partition the units), and
+  `__init__` then succeeds.  NOT proved in general (kept as the hypothesis `LocSpec` of `C09_main`, decidable via
+  `locSpecOk` and checked by the harness on every generated case): `LocSpec` itself for rows with several units
+  (needs: the greedy leaf set is independent, so a row has at most one leaf unit and it comes last in diagram order;
+  `getUpdateLocation` returns the edges of the last mentioned unit reached by the consistent paths; in a stack the
+  node reached determines the factor bits).
 * `C09_single_unit` (C09e): with a single unit `query` raises `IndexError` (finding F3b: `restrict` on a
   one-variable diagram) — this is why `C09_main` asks for `2 ≤ nUnits`.
-Examples use `decide`; those that have to run `mergeSort` (defined by well-founded recursion) use `decide +kernel`.
+Examples use `decide` (`decide +kernel` where `build` has to be run); `compile` of the two-units-per-row example runs
+`mergeSort` (well-founded recursion, which `decide` cannot unfold) and is therefore evaluated once by `simp`
+(`C09ex.compile_p3`).
 -/
 
 open Ds Ds.Dd Ds.Oracle
@@ -53,6 +58,24 @@ def p3 : Prov.P := { data := [[[(0, 1), (1, 1)]], [[(1, 1), (2, 1)]]], nDisj := 
 def p1 : Prov.P := { data := [[[(0, 1)]], [[(0, 1)]]], nDisj := 1, nConj := 1, nUnits := 1 }
 abbrev D2 : Dom := .tally 1 1 2
 abbrev D3 : Dom := .tally 2 1 2
+/-- what `compile p3` returns: header node for unit 1 over two copies of the chain over the leaf units 0, 2 -/
+def cmp3 : Compiled (AVal D3) :=
+  { add := { units := [1, 0, 2], C := 2, diameter := 2, root := 0,
+             levels := [[⟨true, [0, 1], [0, 0]⟩, ⟨false, [0, 0], [0, 0]⟩],
+                        [⟨true, [0, 0], [0, 0]⟩, ⟨true, [1, 1], [0, 0]⟩],
+                        [⟨true, [0, 0], [0, 0]⟩, ⟨true, [1, 1], [0, 0]⟩]] },
+    locs := [[(1, 1, 1)], [(2, 1, 1)]] }
+set_option maxRecDepth 8000 in
+set_option maxHeartbeats 1000000 in
+set_option linter.unusedSimpArgs false in
+/-- (`mergeSort` is defined by well-founded recursion, so `compile p3` is evaluated by `simp`, not by `decide`) -/
+theorem compile_p3 : compile p3 = .ok cmp3 := by
+  simp [compile, p3, cmp3, pairsOf, rowUnits, rowLits, leafUnits, components, componentOf, neighborsOf, dedupSorted,
+    List.mergeSort, List.MergeSort.Internal.splitInTwo, List.merge, List.range_succ, List.eraseDups_cons,
+    stack, concatenate, concatenate.go, chain, treeLevels, padLevel, Diagram.getUpdateLocation,
+    Diagram.getUpdateLocation.walk, Diagram.getUpdateLocation.skip, nodeAt, Node.ch, liveZero, blank, bind,
+    Except.bind, pure, Except.pure, Except.map, throw, throwThe, MonadExceptOf.throw]
+  rfl
 end C09ex
 open C09ex
 
@@ -60,17 +83,15 @@ open C09ex
 theorem C09_locSpecOk {V : Type} (p : Prov.P) (cmp : Compiled V) (h : locSpecOk p cmp = true) : LocSpec p cmp :=
   locSpecOk_sound p cmp h
 
-example : (compile p3 : Except Err (Compiled (AVal D3))).map (fun cmp => locSpecOk p3 cmp) = .ok true := by
-  decide +kernel
+example : compile p3 = .ok cmp3 ∧ locSpecOk p3 cmp3 = true := ⟨compile_p3, by decide⟩
 
 /-- C09a: `query` returns the by-definition counts -/
 theorem C09_main (N K c : ℕ) (p : Prov.P) (labels : List ℕ) (dist : List Rat) (b : Built (Dom.tally N K c))
     (hconj : Conjunctive p) (hcands : p.nCands = 2) (hn : 2 ≤ p.nUnits)
-    (hb : build (Dom.tally N K c) c p labels dist = .ok b)
-    (hperm : b.base.add.units.Perm (List.range p.nUnits)) (hloc : LocSpec p b.base)
+    (hb : build (Dom.tally N K c) c p labels dist = .ok b) (hloc : LocSpec p b.base)
     (unit : ℕ) (hu : unit < p.nUnits) (bw bwo : Option ℕ)
     (hbw : ∀ t, bw = some t → t < p.data.length) (hbwo : ∀ t, bwo = some t → t < p.data.length) :
-    compile p = .ok b.base ∧ Reach b.base.add ∧
+    compile p = .ok b.base ∧ Reach b.base.add ∧ b.base.add.units.Perm (List.range p.nUnits) ∧
     ∃ counts : List Int, query c b p.data.length unit bw bwo = .ok counts ∧
       counts.length = (Dom.tally N K c).vecs.length + 1 ∧
       (∀ k (hk : k < (Dom.tally N K c).vecs.length), counts.getD k 0 =
@@ -79,39 +100,40 @@ theorem C09_main (N K c : ℕ) (p : Prov.P) (labels : List ℕ) (dist : List Rat
       counts.getD (Dom.tally N K c).vecs.length 0 =
         2 ^ (p.nUnits - 1) - (counts.take (Dom.tally N K c).vecs.length).sum := by
   obtain ⟨hcomp, hmk⟩ := build_spec c p labels dist b hb
+  have hperm := compile_units_perm p b.base hcomp hconj hcands
   have H := baseOK_of_compile p b.base hcomp hcands hperm hloc
   obtain ⟨counts, h1, h2, h3, h4⟩ := query_counts H hconj hn labels dist hmk unit hu bw bwo hbw hbwo
-  exact ⟨hcomp, (compile_reach p b.base hcomp hcands).1, counts, h1, h2, h3, last_of_sum counts _ _ h2 h4⟩
+  exact ⟨hcomp, (compile_reach p b.base hcomp hcands).1, hperm, counts, h1, h2, h3, last_of_sum counts _ _ h2 h4⟩
 
 /-- an instance of the hypotheses of `C09_main` outside the chain case (two units per row): `__init__` succeeds, the
 compiled diagram has the units `[1, 0, 2]` and passes `locSpecOk` -/
 example : Conjunctive p3 ∧ p3.nCands = 2 ∧ 2 ≤ p3.nUnits := by decide
 example : (build D3 2 p3 [0, 1] [1, 2]).map (fun b =>
     (b.base.add.units, decide (b.base.add.units.Perm (List.range p3.nUnits)), locSpecOk p3 b.base)) =
-      .ok ([1, 0, 2], true, true) := by decide +kernel
+      .ok ([1, 0, 2], true, true) := by rw [build_eq, compile_p3]; decide +kernel
 /-- … and what `query(1, 0, None)` returns there: unit 1 off, row 0 never present without it; the two
 assignments of the other units with `x0 = 1` (`t = 1` or `2`, label 0 counted once on the `with` side) -/
 example : (build D3 2 p3 [0, 1] [1, 2]).bind (fun b => query 2 b 2 1 (some 0) none) =
-    .ok [0, 0, 0, 0, 0, 0, 0, 0, 0, 0, 0, 0, 0, 0, 0, 1, 0, 0, 0, 0, 0, 0, 0, 0, 1, 0, 0, 2] := by decide +kernel
+    .ok [0, 0, 0, 0, 0, 0, 0, 0, 0, 0, 0, 0, 0, 0, 0, 1, 0, 0, 0, 0, 0, 0, 0, 0, 1, 0, 0, 2] := by
+  rw [build_eq, compile_p3]; decide +kernel
 
 /-- C09b: the counts returned by `query` add up to the number of coalitions without the target -/
 theorem C09_total (N K c : ℕ) (p : Prov.P) (labels : List ℕ) (dist : List Rat) (b : Built (Dom.tally N K c))
     (hconj : Conjunctive p) (hcands : p.nCands = 2) (hn : 2 ≤ p.nUnits)
-    (hb : build (Dom.tally N K c) c p labels dist = .ok b)
-    (hperm : b.base.add.units.Perm (List.range p.nUnits)) (hloc : LocSpec p b.base)
+    (hb : build (Dom.tally N K c) c p labels dist = .ok b) (hloc : LocSpec p b.base)
     (unit : ℕ) (hu : unit < p.nUnits) (bw bwo : Option ℕ)
     (hbw : ∀ t, bw = some t → t < p.data.length) (hbwo : ∀ t, bwo = some t → t < p.data.length)
     (counts : List Int) (hq : query c b p.data.length unit bw bwo = .ok counts) :
     counts.sum = 2 ^ (p.nUnits - 1) := by
   obtain ⟨hcomp, hmk⟩ := build_spec c p labels dist b hb
-  have H := baseOK_of_compile p b.base hcomp hcands hperm hloc
+  have H := baseOK_of_compile p b.base hcomp hcands (compile_units_perm p b.base hcomp hconj hcands) hloc
   obtain ⟨counts', h1, _, _, h4⟩ := query_counts H hconj hn labels dist hmk unit hu bw bwo hbw hbwo
   rw [hq] at h1
   cases h1
   exact h4
 
 example : ((build D3 2 p3 [0, 1] [1, 2]).bind (fun b => query 2 b 2 1 (some 0) none)).map List.sum = .ok (2 ^ (3 - 1)) := by
-  decide +kernel
+  rw [build_eq, compile_p3]; decide +kernel
 
 /-- C09c: one unit per row — `compile` returns the chain over `range nUnits`, and everything `C09_main` asks of
 the compiled diagram holds -/
@@ -121,8 +143,8 @@ theorem C09_chain {D : Dom} (p : Prov.P) (hconj : Conjunctive p) (hone : OneUnit
   ⟨_, compile_chain p (by rw [hconj.1]) hone.1, rfl, Reach.chain _ _, rfl, (chain_baseOK p hconj hone hcands).loc⟩
 
 example : Conjunctive p2 ∧ OneUnit p2 ∧ p2.nCands = 2 := by decide
-example : (compile p2 : Except Err (Compiled (AVal D2))).map (fun cmp => (cmp.add.units, cmp.locs, locSpecOk p2 cmp)) =
-    .ok ([0, 1], [[(0, 0, 1)], [(0, 0, 1)], [(1, 0, 1)]], true) := by decide
+example : (compile p2 : Except Err (Compiled (AVal D2))).map (fun cmp => (cmp.add.units, locSpecOk p2 cmp)) =
+    .ok ([0, 1], true) ∧ chainLocs p2 = [[(0, 0, 1)], [(0, 0, 1)], [(1, 0, 1)]] := by decide
 
 /-- C09c, corollary: for map / fork provenance (one unit per row) `__init__` succeeds and `query` returns the
 by-definition counts, with no side conditions on the compiled diagram -/
@@ -144,10 +166,10 @@ theorem C09_mapfork (N K c : ℕ) (p : Prov.P) (labels : List ℕ) (dist : List 
   obtain ⟨b, hb, hbase⟩ := build_ok c p labels dist cmp hcomp hconj hperm
   subst hbase
   refine ⟨b, hb, fun unit hu bw bwo hbw hbwo => ?_⟩
-  obtain ⟨_, _, counts, h1, h2, h3, h4⟩ :=
-    C09_main N K c p labels dist b hconj hcands hn hb hperm hloc unit hu bw bwo hbw hbwo
+  obtain ⟨_, _, _, counts, h1, h2, h3, h4⟩ :=
+    C09_main N K c p labels dist b hconj hcands hn hb hloc unit hu bw bwo hbw hbwo
   exact ⟨counts, h1, h2, h3, h4,
-    C09_total N K c p labels dist b hconj hcands hn hb hperm hloc unit hu bw bwo hbw hbwo counts h1⟩
+    C09_total N K c p labels dist b hconj hcands hn hb hloc unit hu bw bwo hbw hbwo counts h1⟩
 
 /-- the fork `p2` (labels 0, 1, 1; distances 1, 2, 3): `query(0, 0, 2)` — with unit 0 on, rows 0 and 1 are present
 and row 0 is the boundary (tally `[1, 0]`); without it only row 2 can be present (tally `[0, 1]`), so the single
@@ -166,27 +188,27 @@ example : (build D2 2 p2 [0, 1, 1] [1, 2, 3]).bind (fun b => query 2 b 3 0 (some
 `p` then `ShapleyOracle.__init__` succeeds on it.  The full statement
 `compile p = .ok cmp → Reach cmp.add ∧ cmp.add.units.Perm (range p.nUnits) ∧ LocSpec p cmp` for general conjunctive `p`
 is NOT proved (see the header); `C09_chain` proves it when every row has one unit. -/
-theorem C09_compile_partial {D : Dom} (p : Prov.P) (cmp : Compiled (AVal D)) (hcands : p.nCands = 2)
-    (h : compile p = .ok cmp) :
+theorem C09_compile_partial {D : Dom} (p : Prov.P) (cmp : Compiled (AVal D)) (hconj : Conjunctive p)
+    (hcands : p.nCands = 2) (h : compile p = .ok cmp) :
     Reach cmp.add ∧ cmp.add.WF ∧ cmp.add.Rect ∧ cmp.add.C = 2 ∧ (∀ args, cmp.add.eval args = 0) ∧
-    (∀ (c : ℕ) (labels : List ℕ) (dist : List Rat), Conjunctive p → cmp.add.units.Perm (List.range p.nUnits) →
-      ∃ b, build D c p labels dist = .ok b ∧ b.base = cmp) := by
+    cmp.add.units.Perm (List.range p.nUnits) ∧
+    (∀ (c : ℕ) (labels : List ℕ) (dist : List Rat), ∃ b, build D c p labels dist = .ok b ∧ b.base = cmp) := by
   obtain ⟨h1, h2, _, h4⟩ := compile_reach p cmp h hcands
-  exact ⟨h1, h1.inv.1, h1.inv.2, h2, h4, fun c labels dist hc hp => build_ok c p labels dist cmp h hc hp⟩
+  have hp := compile_units_perm p cmp h hconj hcands
+  exact ⟨h1, h1.inv.1, h1.inv.2, h2, h4, hp, fun c labels dist => build_ok c p labels dist cmp h hconj hp⟩
 
-example : (compile p3 : Except Err (Compiled (AVal D3))).map (fun cmp =>
-    (cmp.add.units, cmp.add.C, cmp.add.diameter, cmp.add.call [1, 0, 1], cmp.locs)) =
-      .ok ([1, 0, 2], 2, 2, .ok 0, [[(1, 1, 1)], [(2, 1, 1)]]) := by decide +kernel
+example : compile p3 = .ok cmp3 ∧ cmp3.add.WF ∧ cmp3.add.C = 2 ∧ cmp3.add.call [1, 0, 1] = .ok 0 ∧
+    cmp3.add.units.Perm (List.range p3.nUnits) := ⟨compile_p3, by decide, by decide, by decide, by decide⟩
 
 /-- C09e: with a single unit `query` raises `IndexError` (finding F3b), whatever the boundaries -/
 theorem C09_single_unit (N K c : ℕ) (p : Prov.P) (labels : List ℕ) (dist : List Rat) (b : Built (Dom.tally N K c))
     (hconj : Conjunctive p) (hcands : p.nCands = 2) (hn : p.nUnits = 1)
-    (hb : build (Dom.tally N K c) c p labels dist = .ok b)
-    (hperm : b.base.add.units.Perm (List.range p.nUnits)) (hloc : LocSpec p b.base)
+    (hb : build (Dom.tally N K c) c p labels dist = .ok b) (hloc : LocSpec p b.base)
     (bw bwo : Option ℕ) (hbw : ∀ t, bw = some t → t < p.data.length) :
     query c b p.data.length 0 bw bwo = .error Err.indexError := by
   obtain ⟨hcomp, hmk⟩ := build_spec c p labels dist b hb
-  exact query_single (baseOK_of_compile p b.base hcomp hcands hperm hloc) hconj hn labels dist hmk bw bwo hbw
+  exact query_single (baseOK_of_compile p b.base hcomp hcands (compile_units_perm p b.base hcomp hconj hcands) hloc)
+    hconj hn labels dist hmk bw bwo hbw
 
 example : Conjunctive p1 ∧ OneUnit p1 ∧ p1.nCands = 2 ∧ p1.nUnits = 1 := by decide
 example : (build D2 2 p1 [0, 1] [1, 2]).bind (fun b => query 2 b 2 0 (some 0) none) = .error Err.indexError ∧
